@@ -113,3 +113,47 @@ def check_kw_identity(ctx, rep, rule, prefixes):
                                      'the caller\'s `%s` is passed as `%s` to %s: the two arguments are crossed'
                                      % (k.value.id, k.arg, norm(node.func)), node)
     return n
+
+
+def check_positional_crossing(ctx, rep, rule, prefixes):
+    """A caller hands its own parameter p to a callee that has a parameter of the same name -- but in the position of
+    ANOTHER parameter q of the callee (`_writepickle(table, source, mode, write_header, protocol)` against
+    `def _writepickle(table, source, mode, protocol, write_header)`): with default values nothing shows, with any other
+    value the two options are swapped."""
+    from ..loader import own_nodes
+    n = 0
+    for fn in ctx.functions(list(prefixes)):
+        for node in own_nodes(fn.node):
+            if not isinstance(node, ast.Call) or not node.args:
+                continue
+            try:
+                refs = ctx.res.resolve_call(fn, node)
+            except Exception:
+                continue
+            for r in refs:
+                g = None
+                bound = False
+                if r.kind == 'func':
+                    g, bound = r.target, bool(getattr(r, 'bound', False))
+                elif r.kind == 'class':
+                    g = ctx.res.lookup_method(r.target, '__init__')
+                    bound = True
+                if g is None or not g.module.name.startswith('petl'):
+                    continue
+                params = list(g.posparams)
+                if bound and params and params[0] in ('self', 'cls'):
+                    params = params[1:]
+                for i, a in enumerate(node.args):
+                    if isinstance(a, ast.Starred) or i >= len(params):
+                        break
+                    if isinstance(a, ast.Name) and a.id in fn.params and a.id in params and params[i] != a.id:
+                        n += 1
+                        c = '%s(... %s in the place of %s ...)' % (norm(node.func), a.id, params[i])
+                        if params[i] in fn.params:
+                            rep.violated(rule, fn, c, 'the caller\'s `%s` is passed by position where %s expects `%s` (and the '
+                                         'callee has a parameter `%s` of its own): the two arguments are crossed'
+                                         % (a.id, norm(node.func), params[i], a.id), node)
+                        else:
+                            rep.undecided(rule, fn, c, 'a parameter passed by position under another name', node)
+                break
+    return n
